@@ -170,6 +170,11 @@ class ClassWorld:
             raise Undecided(f"{obj.attrs['__class__']} has no attribute {attr}")
         if any(dotted(d) == "property" for d in fn.decorator_list):
             return FunctionValue(fn, self.ev, self.genv, self_obj=obj, owner=owner)()
+        if any((dotted(d) or "").split(".")[-1] == "cached_property" for d in fn.decorator_list):
+            # functools.cached_property: computed on first access and then kept in the instance dictionary
+            v = FunctionValue(fn, self.ev, self.genv, self_obj=obj, owner=owner)()
+            obj.attrs[attr] = v
+            return v
         return FunctionValue(fn, self.ev, self.genv, self_obj=obj, owner=owner)
 
     def _super(self, self_obj: Any, owner: Optional[str]) -> Obj:
